@@ -254,7 +254,7 @@ impl Parser {
             // This way, the expression: [NOT a AND b OR c], will be parsed as: (OR (AND (NOT a) b) c)
             Token::Not => {
                 self.next_token();
-                let expr = self.parse_expr_bp(3)?; // NOT precedence
+                let expr = self.parse_expr_bp(4)?; // NOT precedence: above AND's left binding power, so AND ends the operand
                 Ok(Expr::UnaryOp {
                     op: UnaryOperator::Not,
                     expr: Box::new(expr),
